@@ -315,11 +315,34 @@ def run(rep, facts):
     rep.floor("R14.4", "cancellation edges", ncancel, 2)
 
 
+def run_own_group(rep, facts):
+    """R14.6: "the shutdown future completes after the last token of *that runner* has been dropped": every Runner value -- the one built by
+    Config::async_runner and every clone -- owns a fresh wait group and a fresh stop event.  A clone that shares them makes one runner's
+    shutdown wait for (and be woken through the single waker slot of) another runner's tokens."""
+    rep.rule("R14.6", "every construction site of Runner (including Clone::clone and private constructors) installs WaitGroup::new() and Event::new(): "
+                      "wait group and stop event are never shared between runners")
+    sites = common.construction_sites(facts, "async_io::Runner")
+    rep.floor("R14.6", "Runner construction sites", len(sites), 2)
+    for (b, bi, fields, loc) in sites:
+        for fname, ctor in (("wg", "async_io::util::WaitGroup::new"), ("stop", "event_listener::Event::new")):
+            if fname not in fields:
+                rep.undecidable("R14.6", "runner-%s[%s]" % (fname, b.npath), "Runner is built without a field `%s`" % fname, loc)
+                continue
+            e = ir.peel(fields[fname])
+            fresh = e[0] == 'call' and (e[1] == ctor or e[1].endswith("::" + ctor.split("::")[-2] + "::new") or
+                                        (e[1].endswith("Default>::default") and False))
+            if fresh:
+                rep.ok("R14.6", "runner-%s[%s]" % (fname, b.npath), "%s <- %s()" % (fname, ctor.split("::")[-2] + "::new"), loc)
+            else:
+                rep.violation("R14.6", "runner-%s[%s]" % (fname, b.npath), "Runner.%s is %s: not a fresh %s, so two runners would share it" % (fname, ir.show(e)[:60], ctor.split("::")[-2]), loc)
+
+
 def main(rep, tier):
     import check
     f = F.load(("async", "http"))
     rep.configs.append({"features": "async,http", "profile": "debug", "bodies": len(f.bodies)})
     check.guard(rep, "R14", run, f)
+    check.guard(rep, "R14.6", run_own_group, f)
     import check as _c
     _c.witnesses(rep, "C14", f)
     return rep.finish(
